@@ -237,6 +237,14 @@ def rules(vb: VB, features, group):
     for items in (["not_empty", "len_char_min = 5", "len_char_max = 3"], ["len_char_max = 3", "not_empty", "len_char_min = 5"], ["len_char_min = 5", "predicate = |s| true", "len_char_max = 3"]):
         add(decl("T", "String", "validate(%s)" % ", ".join(items)), R, "R7:len-bounds:various-positions")
     # literal spellings with underscores / int literal for a float bound are still literals the macro can compare
+    for (ty, mn, mx) in (("i8", -128, 127), ("i16", -32768, 32767), ("i32", -2147483648, 2147483647), ("i64", -9223372036854775808, 9223372036854775807), ("u8", 0, 255),
+                         ("i128", -170141183460469231731687303715884105728, 170141183460469231731687303715884105727)):
+        add(decl("T", ty, "validate(greater = %d, less = %d)" % (mn, mn)), R, "R7:bounds:at-type-min:%s" % ty)
+        add(decl("T", ty, "validate(greater_or_equal = %d, less = %d)" % (mn, mn)), R, "R7:bounds:at-type-min:%s" % ty)
+        add(decl("T", ty, "validate(greater = %d, less_or_equal = %d)" % (mx, mx)), R, "R7:bounds:at-type-max:%s" % ty)
+        add(decl("T", ty, "validate(greater_or_equal = %d, less_or_equal = %d)" % (mn + 1, mn)), R, "R7:bounds:at-type-min:%s" % ty)
+        add(decl("T", ty, "validate(greater_or_equal = %d, less_or_equal = %d)" % (mn, mn)), A, "R7:bounds:at-type-min-neighbour:%s" % ty)
+        add(decl("T", ty, "validate(greater_or_equal = %d, less_or_equal = %d)" % (mx, mx)), A, "R7:bounds:at-type-max-neighbour:%s" % ty)
     add(decl("T", "i32", "validate(greater = 2_0, less = 1_0)"), R, "R7:bounds:underscored-literals")
     add(decl("T", "i64", "validate(greater_or_equal = 1_000_000, less_or_equal = 999_999)"), R, "R7:bounds:underscored-literals")
     add(decl("T", "f64", "validate(greater = 10, less = 5)"), R, "R7:bounds:int-literals-for-float")
